@@ -95,6 +95,12 @@ type PortalCache interface {
 	Execute(ctx context.Context, name string, reader *buffer.Reader, writer *buffer.Writer) error
 }
 
+// CacheCloser could be implemented by a [StatementCache] or [PortalCache] to
+// support closing (removing) a statement or portal by its name.
+type CacheCloser interface {
+	Close(ctx context.Context, name string) error
+}
+
 type CloseFn func(ctx context.Context) error
 
 // OptionFn options pattern used to define and set options for the given
